@@ -20,6 +20,7 @@ Audio recording input and playing output module
 import threading
 import struct
 import array
+import sys
 
 # Audiolazy internal imports
 from ._internals import deprecate
@@ -114,18 +115,27 @@ def chunks(seq, size=None, dfmt="f", byte_order=None, padval=0.):
     size = chunks.size
   chunk = array.array(dfmt, xrange(size))
   idx = 0
+  native = "<" if sys.byteorder == "little" else ">"
+  swap = byte_order in ("<", ">", "!") and byte_order.replace("!", ">") != native
+
+  def tobytes():
+    if swap: # The array module only knows the native byte order
+      swapped = array.array(dfmt, chunk)
+      swapped.byteswap()
+      return swapped.tobytes()
+    return chunk.tobytes()
 
   for el in seq:
     chunk[idx] = el
     idx += 1
     if idx == size:
-      yield chunk.tobytes()
+      yield tobytes()
       idx = 0
 
   if idx != 0:
     for idx in xrange(idx, size):
       chunk[idx] = padval
-    yield chunk.tobytes()
+    yield tobytes()
 
 
 class RecStream(Stream):
